@@ -32,8 +32,16 @@ func replay(id, path string) {
 	fmt.Printf("error: %q\n", o.ErrString())
 	if rep, err := lib.ParseReport(o.Report); err == nil {
 		fmt.Printf("conforms=%v results=%d\n", rep.Conforms, len(rep.Results))
-		for name, focus := range rep.FocusByName() {
-			fmt.Printf("  %s -> %v\n", name, focus)
+		fmt.Printf("profileName=%q dateCreated=%v\n", rep.ProfileName, rep.DateCreated != nil)
+		for i, res := range rep.Results {
+			if i >= 30 {
+				fmt.Printf("  ... %d more results\n", len(rep.Results)-30)
+				break
+			}
+			fmt.Printf("  %-9s %q focus=%s message=%q\n", res.Severity, res.Name, res.Focus, res.Message)
+		}
+		if d := lib.CheckWellFormed(rep, lib.WFInput{}); len(d) > 0 {
+			fmt.Printf("well-formedness defects: %v\n", d)
 		}
 	} else if o.Report != "" {
 		fmt.Println("unparsable report:", err)
